@@ -1,4 +1,5 @@
 import EupsModel.Lemmas.LockRStale
+import EupsModel.Lemmas.LockRKill
 /-! C09 — stale locks and `eups admin clearLocks` (property theorems).  "Released locks leave no residue that blocks
 later commands" is about RELEASED locks.  The lock of a process that was killed outright is never released: the protocol
 keeps honouring it — safely, under every schedule — until the administrator clears it; `clearLocks` frees the lock, and
@@ -60,5 +61,26 @@ example :
       [0, 0, 0, 0, 0, 0, 0, 0, 1, 1, 1, 1, 1, 1, 9]
     s.pc 0 = .failedAcq .runtime ∧ s.pc 1 = .failedAcq .runtime ∧ s.files = [(.ex, 9)] ∧
     (run (clearLocks s) [2, 2, 2]).pc 2 = .hold := by decide
+
+/-- **Exclusion survives kills**: every configuration, every schedule of file-system calls, of SIGINT/SIGTERM delivered
+to command bodies, and of SIGKILLs that stop any process dead at ANY point of its `takeLocks`, body or `giveLocks`
+(leaving whatever it had put into the lock directory): never two unrelated processes in their command bodies with one
+of them holding an exclusive lock. -/
+theorem C09_mutex_with_kills (kind : Pid → Kind) (lp : Pid → Option Pid) (tries : Pid → Nat) (evs : List KEv) :
+    Mutex (runK (init kind lp tries) evs) := by
+  have h := minv_runK _ evs (minv_init kind lp tries)
+  intro i j hij hnr hi hk
+  cases hb : inBody ((runK (init kind lp tries) evs).pc j) with
+  | false => rfl
+  | true =>
+    have hj : (runK (init kind lp tries) evs).pc j = .hold := by
+      cases hpc : (runK (init kind lp tries) evs).pc j <;> simp_all [inBody]
+    exact absurd (h.excl i j hij hi hj hnr (Or.inl hk)) id
+
+/-- non-vacuity: E₀ is killed between `create` and its look — its file stays; E₁ is turned away at the gate for good -/
+example :
+    let s := runK (init (fun _ => .ex) (fun _ => none) (fun _ => 1))
+      [.call 0, .call 0, .kill 0, .call 1, .call 1, .call 1, .call 1, .call 1, .call 1, .call 0]
+    s.pc 0 = .killed ∧ s.pc 1 = .failedAcq .runtime ∧ s.files = [(.ex, 0)] := by decide
 
 end EupsModel.C09
